@@ -94,10 +94,11 @@ def build_world(spec):
             made.append((p, T0 - 1000))
 
     vols = sorted(spec.get("vols", []), key=lambda v: v.count("/"))
+    vsize = spec.get("vol_size", {})
     for v in vols:
         hp = wp(v)
         mkdirs(hp)
-        _mount(b"tmpfs", hp, b"tmpfs", 0, b"size=256m,mode=755")
+        _mount(b"tmpfs", hp, b"tmpfs", 0, ("size=%s,mode=755" % vsize.get(v, "256m")).encode())
         made.append((hp, T0 - 500))
     chmods = []
     for i, n in enumerate(spec.get("nodes", [])):
@@ -141,6 +142,20 @@ def build_world(spec):
         else:
             raise HarnessError("bad node type %r" % (t,))
         made.append((hp, n.get("mt", T0 + i)))
+    for v in spec.get("fill", ()):
+        # a FULL volume: no free block is left (new names can still be created, as on a real
+        # file system with free inodes, but every write answers ENOSPC)
+        hp = wp(v.rstrip("/") + "/.ballast")
+        fd = os.open(hp, os.O_WRONLY | os.O_CREAT | os.O_EXCL, 0o600)
+        try:
+            chunk = b"\0" * 4096
+            while True:
+                os.write(fd, chunk)
+        except OSError:
+            pass
+        finally:
+            os.close(fd)
+        made.append((hp, T0 - 400))
     for hp, m in chmods:
         os.chmod(hp, m)
     for hp, mt in sorted(made, key=lambda x: -x[0].count("/")):
